@@ -871,7 +871,7 @@ func frameKinds(p *core.Prog) map[string]int64 {
 				}
 				if fl, ok := ef.Fact.X.(*ssa.Field); ok {
 					st := fl.X.Type().Underlying().(*types.Struct)
-					out[st.Field(fl.Field).Name()] = k
+					out[core.FieldName(st, fl.Field)] = k
 				}
 			}
 		}
